@@ -58,6 +58,7 @@ type vfWConfig struct {
 		N      int `json:"n"`      // captured priorities
 	} `json:"prio"`
 	Timeouts bool `json:"timeouts"` // observe handshake / idle cuts
+	Certs    bool `json:"certs"`    // rotate the key pair on disk and look at what handshakes of several kinds are shown (C14)
 	ViaEnv   bool `json:"via_env"`  // every setting through its environment variable ($FORWARD_URL, $ENABLE_KUBERNETES_PROBE, ...) instead of the command line
 }
 type vfWObs struct {
@@ -79,6 +80,7 @@ type vfWOut struct {
 	Obs      []vfWObs          `json:"obs"`
 	PrioFP   []string          `json:"prio_fp"`
 	Cuts     map[string]int64  `json:"cuts_ms"`
+	Certs    []map[string]int64 `json:"certs,omitempty"` // per phase: serial number shown to each kind of client (-1: handshake failed)
 	Err      string            `json:"err,omitempty"`
 }
 
@@ -100,13 +102,15 @@ func vfWSpell(l vfWLine) string {
 	return n
 }
 
-func vfWCert(dir string) (string, string) {
+func vfWCert(dir string) (string, string) { return vfWCertSerial(dir, 7, "") }
+
+func vfWCertSerial(dir string, serial int64, suffix string) (string, string) {
 	k, _ := ecdsa.GenerateKey(elliptic.P256(), rand.Reader)
-	tmpl := &x509.Certificate{SerialNumber: big.NewInt(7), Subject: pkix.Name{CommonName: "vf.test"}, NotBefore: time.Now().Add(-time.Hour),
+	tmpl := &x509.Certificate{SerialNumber: big.NewInt(serial), Subject: pkix.Name{CommonName: "vf.test"}, NotBefore: time.Now().Add(-time.Hour),
 		NotAfter: time.Now().Add(24 * time.Hour), DNSNames: []string{"vf.test"}}
 	der, _ := x509.CreateCertificate(rand.Reader, tmpl, tmpl, &k.PublicKey, k)
 	kb, _ := x509.MarshalECPrivateKey(k)
-	crt, key := filepath.Join(dir, "tls.crt"), filepath.Join(dir, "tls.key")
+	crt, key := filepath.Join(dir, "tls.crt"+suffix), filepath.Join(dir, "tls.key"+suffix)
 	os.WriteFile(crt, pem.EncodeToMemory(&pem.Block{Type: "CERTIFICATE", Bytes: der}), 0o644)
 	os.WriteFile(key, pem.EncodeToMemory(&pem.Block{Type: "EC PRIVATE KEY", Bytes: kb}), 0o600)
 	return crt, key
@@ -334,6 +338,57 @@ func vfWRun(t *testing.T, c vfWConfig) vfWOut {
 			v = "ERR:" + err.Error()
 		}
 		out.PrioFP = append(out.PrioFP, v)
+	}
+	if c.Certs {
+		// what a handshake is shown: a client that names the host, one that sends no server name at all (an IP literal, a health checker),
+		// one that names a host the certificate does not cover, one limited to TLS 1.2 - before and after rotations of the files on disk
+		shown := func(cfg *tls.Config) int64 {
+			d := net.Dialer{Timeout: 3 * time.Second}
+			raw, err := d.Dial("tcp", addr)
+			if err != nil {
+				return -1
+			}
+			defer raw.Close()
+			raw.SetDeadline(time.Now().Add(5 * time.Second))
+			cfg.InsecureSkipVerify = true
+			tc := tls.Client(raw, cfg)
+			if err := tc.Handshake(); err != nil {
+				return -1
+			}
+			pc := tc.ConnectionState().PeerCertificates
+			if len(pc) == 0 {
+				return -1
+			}
+			return pc[0].SerialNumber.Int64()
+		}
+		kinds := func() map[string]int64 {
+			return map[string]int64{
+				"sni":       shown(&tls.Config{ServerName: "vf.test"}),
+				"no_sni":    shown(&tls.Config{}),
+				"other_sni": shown(&tls.Config{ServerName: "elsewhere.example"}),
+				"tls12":     shown(&tls.Config{ServerName: "vf.test", MaxVersion: tls.VersionTLS12}),
+				"tls12_no_sni": shown(&tls.Config{MaxVersion: tls.VersionTLS12}),
+				"h2_no_sni": shown(&tls.Config{NextProtos: []string{"h2"}}),
+			}
+		}
+		ph := kinds()
+		ph["want"] = 7
+		out.Certs = append(out.Certs, ph)
+		for step, serial := range []int64{8, 9} {
+			if step == 0 { // rename both files over the old ones
+				nc, nk := vfWCertSerial(dir, serial, ".new")
+				os.Rename(nk, key)
+				os.Rename(nc, crt)
+			} else { // write in place
+				vfWCertSerial(dir, serial, "")
+			}
+			for i := 0; i < 100 && shown(&tls.Config{ServerName: "vf.test"}) != serial; i++ {
+				time.Sleep(50 * time.Millisecond)
+			}
+			ph := kinds()
+			ph["want"] = serial
+			out.Certs = append(out.Certs, ph)
+		}
 	}
 	if c.Timeouts {
 		// a client that never starts the handshake, and idle connections after one request, must be cut by the proxy
